@@ -395,221 +395,3 @@ Lemma equal_vec_unbounded : forall k fuel, fuel >= k + 2 ->
 Proof. intros k fuel Hf. rewrite equal_vec_exact by lia. cbn [fst]. lia. Qed.
 End EqualVec.
 
-(* ===================================================== mark through a closure chain *)
-(* the heap OClosureAcc builds (Vm.v: hput (VLexEnv eid), hput (VClosure lambda env)) for
-     (define (mk c) (lambda () c))   (mk (mk (mk ...)))
-   a closure whose environment holds a closure whose environment holds ... :
-     0: Lambda(Rc 0)
-     level k >= 1:   2k-1: LexicalEnvironment(Rc k) = [Ptr (2k-2)]     2k: Closure(0, 2k-1)   *)
-Definition clo_cells (i : N) : vcell :=
-  if (i =? 0)%N then VLambda 0 else if N.odd i then VLexEnv ((i + 1) / 2) else VClosure 0 (i - 1).
-Definition clo_heap (k : nat) : heap := heap_of_fun clo_cells (S (2 * k)).
-Definition clo_lambda : lambda := mk_lambda false false [] [] [] None.
-Definition clo_env (e : N) : list vcell := [VPtr (2 * e - 2)].
-Definition clo_store (k : nat) : store :=
-  mk_store tempty tempty (tbl_fill clo_env (S k) tempty) (tset tempty 0 clo_lambda) tempty tempty
-           (N.of_nat (S k)).
-
-Lemma clo_cells_env : forall k, clo_cells (N.of_nat (2 * S k - 1)) = VLexEnv (N.of_nat (S k)).
-Proof.
-  intro k. unfold clo_cells.
-  destruct (N.eqb_spec (N.of_nat (2 * S k - 1)) 0); [lia|].
-  replace (N.of_nat (2 * S k - 1)) with (1 + 2 * N.of_nat k)%N by lia.
-  rewrite N.odd_add_mul_2. change (N.odd 1) with true. cbv iota. f_equal.
-  replace (1 + 2 * N.of_nat k + 1)%N with (N.of_nat (S k) * 2)%N by lia.
-  apply N.div_mul. lia.
-Qed.
-Lemma clo_cells_clo : forall k, clo_cells (N.of_nat (2 * S k)) = VClosure 0 (N.of_nat (2 * S k - 1)).
-Proof.
-  intro k. unfold clo_cells.
-  destruct (N.eqb_spec (N.of_nat (2 * S k)) 0); [lia|].
-  replace (N.of_nat (2 * S k)) with (0 + 2 * N.of_nat (S k))%N by lia.
-  rewrite N.odd_add_mul_2. change (N.odd 0) with false. cbv iota. f_equal. lia.
-Qed.
-Lemma clo_store_env : forall n k, k < n ->
-  tget (envs (clo_store n)) (N.of_nat (S k)) = Some [VPtr (N.of_nat (2 * k))].
-Proof.
-  intros n k H. unfold clo_store. cbn [envs]. rewrite tbl_fill_get by lia.
-  unfold clo_env. do 3 f_equal. lia.
-Qed.
-
-Section MarkClosure.
-Variable vd : nat.
-
-Lemma seq2_fst_ge : forall (f g : gmap -> dgm) m, fst (seq2 f g m) >= fst (f m).
-Proof.
-  intros f g m. unfold seq2. destruct (f m) as [d1 o]. destruct o; cbn [fst]; try lia.
-  destruct (g a) as [d2 o2]. cbn [fst]. nm. lia.
-Qed.
-Lemma seq2_snd_ge : forall (f g : gmap -> dgm) m d1 m1, f m = (d1, Ok m1) ->
-  fst (seq2 f g m) >= fst (g m1).
-Proof.
-  intros f g m d1 m1 H. unfold seq2. rewrite H. destruct (g m1) as [d2 o2]. cbn [fst]. nm. lia.
-Qed.
-Lemma seq_d_head_ge : forall A (f : A -> gmap -> dgm) x r m, fst (seq_d f (x :: r) m) >= fst (f x m).
-Proof.
-  intros A f x r m. cbn [seq_d]. destruct (f x m) as [d1 o]. destruct o; cbn [fst]; try lia.
-  destruct (seq_d f r a) as [d2 o2]. cbn [fst]. nm. lia.
-Qed.
-
-Lemma mark_loop_closure : forall h s f p m lam env,
-  (p <? hlen h)%N = true -> g_is_used m p = false -> cell_at h p = VClosure lam env ->
-  mark_loop_d h s vd (S f) p m =
-  seq2 (fun m => let '(d, o) := mark_loop_d h s vd f lam m in (S d, o))
-       (fun m => let '(d, o) := mark_loop_d h s vd f env m in (S d, o)) (tset m p GUsed).
-Proof. intros h s f p m lam env H1 H2 H3. cbn [mark_loop_d]. rewrite H1, H2, H3. reflexivity. Qed.
-Lemma mark_loop_lexenv : forall h s f p m eid l,
-  (p <? hlen h)%N = true -> g_is_used m p = false -> cell_at h p = VLexEnv eid ->
-  tget (envs s) eid = Some l ->
-  mark_loop_d h s vd (S f) p m =
-  seq_d (mark_vcell_d s (fun p m => let '(d, o) := mark_loop_d h s vd f p m in (S d, o)) vd) l
-        (tset m p GUsed).
-Proof.
-  intros h s f p m eid l H1 H2 H3 H4. cbn [mark_loop_d]. rewrite H1, H2, H3. cbn [negb].
-  rewrite H4. reflexivity.
-Qed.
-(* a lambda without operands: marked, no nested call *)
-Lemma mark_loop_empty_lambda : forall h s f p m lid,
-  (p <? hlen h)%N = true -> cell_at h p = VLambda lid ->
-  tget (lams s) lid = Some clo_lambda ->
-  mark_loop_d h s vd (S f) p m = (0, Ok (if g_is_used m p then m else tset m p GUsed)).
-Proof.
-  intros h s f p m lid H1 H2 H3. cbn [mark_loop_d]. rewrite H1. cbn [negb].
-  destruct (g_is_used m p); [reflexivity|]. rewrite H2. unfold lambda_body_d. rewrite H3. reflexivity.
-Qed.
-
-Lemma clo_cell_at : forall n p, (p < N.of_nat (S (2 * n)))%N -> cell_at (clo_heap n) p = clo_cells p.
-Proof. intros n p H. unfold clo_heap. apply heap_of_fun_cell_at. exact H. Qed.
-Lemma clo_hlen : forall n p, (p < N.of_nat (S (2 * n)))%N -> (p <? hlen (clo_heap n))%N = true.
-Proof. intros n p H. unfold clo_heap. rewrite hlen_heap_of_fun. apply N.ltb_lt. exact H. Qed.
-
-(* three frames per closure: mark(closure) -> mark(environment) -> mark_vcell(slot) -> mark *)
-Lemma mark_loop_closure_ge : forall n k fuel m, k <= n -> fuel >= 2 * k -> vd >= 1 ->
-  (forall i, 1 <= i -> i <= 2 * k -> g_is_used m (N.of_nat i) = false) ->
-  fst (mark_loop_d (clo_heap n) (clo_store n) vd fuel (N.of_nat (2 * k)) m) >= 3 * k.
-Proof.
-  intros n. induction k as [|k IH]; intros fuel m Hk Hf Hvd Hm; [lia|].
-  destruct fuel as [|[|f]]; try lia.
-  set (pc := N.of_nat (2 * S k)). set (pe := N.of_nat (2 * S k - 1)).
-  rewrite (mark_loop_closure _ _ _ pc m 0%N pe);
-    [|apply clo_hlen; subst pc; lia|apply Hm; lia
-     |subst pc pe; rewrite clo_cell_at by lia; apply clo_cells_clo].
-  assert (Hq : mark_loop_d (clo_heap n) (clo_store n) vd (S f) 0%N (tset m pc GUsed) =
-               (0, Ok (if g_is_used (tset m pc GUsed) 0%N then tset m pc GUsed
-                       else tset (tset m pc GUsed) 0%N GUsed))).
-  { apply (mark_loop_empty_lambda _ _ _ _ _ 0%N); [apply clo_hlen; lia| |reflexivity].
-    rewrite clo_cell_at by lia. reflexivity. }
-  set (m1 := if g_is_used (tset m pc GUsed) 0%N then tset m pc GUsed
-             else tset (tset m pc GUsed) 0%N GUsed) in *.
-  eapply Nat.le_trans; [|eapply seq2_snd_ge; rewrite Hq; reflexivity]. cbv beta.
-  assert (Hm1 : forall i, 1 <= i -> i <= 2 * k + 1 -> g_is_used m1 (N.of_nat i) = false).
-  { intros i H1 Hi. subst m1. apply unused_after_leaf; [lia|].
-    rewrite g_is_used_tset_neq by (subst pc; lia). apply Hm; lia. }
-  rewrite (mark_loop_lexenv _ _ _ pe m1 (N.of_nat (S k)) [VPtr (N.of_nat (2 * k))]);
-    [|apply clo_hlen; subst pe; lia|subst pe; apply Hm1; lia
-     |subst pe; rewrite clo_cell_at by lia; apply clo_cells_env|apply clo_store_env; lia].
-  set (mr := fun (p : N) (m : gmap) =>
-               let '(d, o) := mark_loop_d (clo_heap n) (clo_store n) vd f p m in (S d, o)).
-  pose proof (seq_d_head_ge _ (mark_vcell_d (clo_store n) mr vd) (VPtr (N.of_nat (2 * k))) []
-                (tset m1 pe GUsed)) as Hs.
-  rewrite mark_vcell_ptr in Hs by exact Hvd.
-  specialize (IH f (tset m1 pe GUsed) ltac:(lia) ltac:(lia) Hvd).
-  assert (Hm2 : forall i, 1 <= i -> i <= 2 * k -> g_is_used (tset m1 pe GUsed) (N.of_nat i) = false).
-  { intros i H1 Hi. rewrite g_is_used_tset_neq by (subst pe; lia). apply Hm1; lia. }
-  specialize (IH Hm2). subst mr. cbv beta in Hs.
-  destruct (mark_loop_d (clo_heap n) (clo_store n) vd f (N.of_nat (2 * k)) (tset m1 pe GUsed)) as [d o].
-  cbn [fst] in *.
-  destruct (seq_d _ _ _) as [d3 o3]. cbn [fst] in *. lia.
-Qed.
-
-Lemma mark_closure_ge : forall n k fuel, k <= n -> fuel >= 2 * k -> vd >= 1 ->
-  fst (mark_d (clo_heap n) (clo_store n) vd fuel (N.of_nat (2 * k)) tempty) >= 3 * k + 1.
-Proof.
-  intros n k fuel Hk Hf Hvd. unfold mark_d.
-  pose proof (mark_loop_closure_ge n k fuel tempty Hk Hf Hvd) as H.
-  destruct (mark_loop_d (clo_heap n) (clo_store n) vd fuel (N.of_nat (2 * k)) tempty) as [d o].
-  cbn [fst] in *. assert (d >= 3 * k); [|lia]. apply H. intros i _ _. apply unused_tempty.
-Qed.
-Lemma mark_closure_unbounded : forall k fuel, fuel >= 2 * k + 2 -> vd >= 1 ->
-  fst (mark_d (clo_heap (S k)) (clo_store (S k)) vd fuel (N.of_nat (2 * S k)) tempty) > k.
-Proof. intros k fuel Hf Hvd. pose proof (mark_closure_ge (S k) (S k) fuel ltac:(lia) ltac:(lia) Hvd). lia. Qed.
-End MarkClosure.
-
-(* ================================================= mark through a continuation chain *)
-(* a continuation whose saved stack holds (a pointer to) a continuation whose saved stack
-   holds ... (to_continuation copies the live stack; a continuation object that is an
-   argument or a local of an enclosing frame is a Ptr slot of that stack):
-     0: Lambda(Rc 0)    1: LexicalEnvironment(Rc 1) = []
-     a >= 2:  Continuation(Rc a) = { stack = [Ptr (a-1)], ip = (0, 0), ep = 1 }               *)
-Definition cont_cells (i : N) : vcell :=
-  if (i =? 0)%N then VLambda 0 else if (i =? 1)%N then VLexEnv 1 else VCont i.
-Definition cont_heap (k : nat) : heap := heap_of_fun cont_cells (k + 2).
-Definition cont_obj (a : N) : cont := mk_cont [VPtr (a - 1)] 1 1 (0%N, 0%N) 0.
-Definition cont_store (k : nat) : store :=
-  mk_store tempty tempty (tset tempty 1 []) (tset tempty 0 clo_lambda)
-           (tbl_fill cont_obj (k + 2) tempty) tempty (N.of_nat (k + 2)).
-
-Section MarkCont.
-Variable vd : nat.
-
-Lemma mark_loop_cont : forall h s f p m cid k,
-  (p <? hlen h)%N = true -> g_is_used m p = false -> cell_at h p = VCont cid ->
-  tget (conts s) cid = Some k ->
-  mark_loop_d h s vd (S f) p m =
-  let mark_rec := fun p m => let '(d, o) := mark_loop_d h s vd f p m in (S d, o) in
-  seq2 (seq_d (mark_vcell_d s mark_rec vd) (k_stack k))
-       (seq2 (mark_rec (fst (k_ip k))) (mark_rec (k_ep k))) (tset m p GUsed).
-Proof.
-  intros h s f p m cid k H1 H2 H3 H4. cbn [mark_loop_d]. rewrite H1, H2, H3. cbn [negb].
-  unfold cont_body_d. rewrite H4. reflexivity.
-Qed.
-
-Lemma cont_cells_S : forall k, cont_cells (N.of_nat (S k + 1)) = VCont (N.of_nat (S k + 1)).
-Proof.
-  intro k. unfold cont_cells.
-  destruct (N.eqb_spec (N.of_nat (S k + 1)) 0); [lia|].
-  destruct (N.eqb_spec (N.of_nat (S k + 1)) 1); [lia|reflexivity].
-Qed.
-Lemma cont_store_get : forall n k, k < n ->
-  tget (conts (cont_store n)) (N.of_nat (S k + 1)) = Some (mk_cont [VPtr (N.of_nat (k + 1))] 1 1 (0%N, 0%N) 0).
-Proof.
-  intros n k H. unfold cont_store. cbn [conts]. rewrite tbl_fill_get by lia.
-  unfold cont_obj. do 4 f_equal. lia.
-Qed.
-
-(* two frames per continuation: mark(continuation) -> mark_vcell(stack slot) -> mark *)
-Lemma mark_loop_cont_ge : forall n k fuel m, k <= n -> fuel >= k -> vd >= 1 ->
-  (forall i, 2 <= i -> i <= k + 1 -> g_is_used m (N.of_nat i) = false) ->
-  fst (mark_loop_d (cont_heap n) (cont_store n) vd fuel (N.of_nat (k + 1)) m) >= 2 * k.
-Proof.
-  intros n. induction k as [|k IH]; intros fuel m Hk Hf Hvd Hm; [lia|].
-  destruct fuel as [|f]; [lia|].
-  rewrite (mark_loop_cont _ _ _ _ _ (N.of_nat (S k + 1)) (mk_cont [VPtr (N.of_nat (k + 1))] 1 1 (0%N, 0%N) 0));
-    [|unfold cont_heap; rewrite hlen_heap_of_fun; apply N.ltb_lt; lia|apply Hm; lia
-     |unfold cont_heap; rewrite heap_of_fun_cell_at by lia; apply cont_cells_S
-     |apply cont_store_get; lia].
-  cbv zeta. cbn [k_stack k_ip k_ep fst].
-  eapply Nat.le_trans; [|apply seq2_fst_ge].
-  eapply Nat.le_trans; [|apply seq_d_head_ge].
-  rewrite mark_vcell_ptr by exact Hvd.
-  specialize (IH f (tset m (N.of_nat (S k + 1)) GUsed) ltac:(lia) ltac:(lia) Hvd).
-  assert (Hm' : forall i, 2 <= i -> i <= k + 1 ->
-                 g_is_used (tset m (N.of_nat (S k + 1)) GUsed) (N.of_nat i) = false).
-  { intros i H2 Hi. rewrite g_is_used_tset_neq by lia. apply Hm; lia. }
-  specialize (IH Hm').
-  destruct (mark_loop_d (cont_heap n) (cont_store n) vd f (N.of_nat (k + 1)) _) as [d o].
-  cbn [fst] in *. lia.
-Qed.
-
-Lemma mark_cont_ge : forall n k fuel, k <= n -> fuel >= k -> vd >= 1 ->
-  fst (mark_d (cont_heap n) (cont_store n) vd fuel (N.of_nat (k + 1)) tempty) >= 2 * k + 1.
-Proof.
-  intros n k fuel Hk Hf Hvd. unfold mark_d.
-  pose proof (mark_loop_cont_ge n k fuel tempty Hk Hf Hvd) as H.
-  destruct (mark_loop_d (cont_heap n) (cont_store n) vd fuel (N.of_nat (k + 1)) tempty) as [d o].
-  cbn [fst] in *. assert (d >= 2 * k); [|lia]. apply H. intros i _ _. apply unused_tempty.
-Qed.
-Lemma mark_cont_unbounded : forall k fuel, fuel >= k + 1 -> vd >= 1 ->
-  fst (mark_d (cont_heap (S k)) (cont_store (S k)) vd fuel (N.of_nat (S k + 1)) tempty) > k.
-Proof. intros k fuel Hf Hvd. pose proof (mark_cont_ge (S k) (S k) fuel ltac:(lia) ltac:(lia) Hvd). lia. Qed.
-End MarkCont.
